@@ -44,6 +44,8 @@ pub fn new_box(area: &str) -> Option<Box<dyn VerifBox>> {
         "c02" => Some(Box::new(crate::crypto::noise::verif_c02::NoiseBox::new())),
         "c16" => Some(Box::new(
             crate::protocol::libp2p::kademlia::verif_c16::KadBox::new(),
+        "c20" => Some(Box::new(
+            crate::protocol::libp2p::bitswap::verif_c20::BitswapBox::new(),
         )),
         _ => None,
     }
@@ -64,6 +66,7 @@ pub fn areas() -> Vec<&'static str> {
         "c18",
         "c19",
     ]
+    vec!["c17", "c20"]
 }
 
 /// Decode a hex string.
